@@ -75,7 +75,7 @@ def run(job):
         ts = subprocess.run("go test -vet=off -count=1 ./... >/dev/null 2>&1 && cd cmd/hranoprovod-cli && go test -vet=off -count=1 ./... >/dev/null 2>&1", shell=True, cwd=f"{t}/repo", env=ENV, timeout=600)
         if ts.returncode != 0:
             return {"site": desc, "status": "killed-by-tests"}
-        v = subprocess.run([a.govc, "dev", "-repo", f"{t}/repo", "-f", "@", "-q", "-t", "10"], capture_output=True, text=True, timeout=3600)
+        v = subprocess.run([a.govc, "dev", "-repo", f"{t}/repo", "-dir", f"{t}/smt", "-f", "@", "-q", "-t", "10"], capture_output=True, text=True, timeout=3600)
         out = v.stdout + v.stderr
         probs = [l.strip() for l in out.splitlines() if l.startswith("   failed") or l.startswith("   timeout") or l.startswith("   unknown") or "ERROR" in l or "UNSUPP" in l or "error" in l[:12]]
         probs = [p for p in probs if "resolver.Resolve[exact]/post#exact" not in p]
